@@ -571,11 +571,11 @@ class CFG:
         return out
 
 
-_CFG_CACHE: dict[int, CFG] = {}
-
-
 def cfg_of(func_node) -> CFG:
-    key = id(func_node)
-    if key not in _CFG_CACHE:
-        _CFG_CACHE[key] = CFG(func_node)
-    return _CFG_CACHE[key]
+    """CFG of a function, cached on the AST node itself (an id()-keyed cache would hand a stale graph to a new node that
+    re-uses the address of a collected one when several trees are analysed in one process)."""
+    cached = getattr(func_node, "_sa_cfg", None)
+    if cached is None:
+        cached = CFG(func_node)
+        func_node._sa_cfg = cached
+    return cached
